@@ -1,6 +1,7 @@
 package codec
 
 import (
+	"regexp"
 	"fmt"
 	"go/ast"
 	"go/token"
@@ -129,6 +130,105 @@ func evalIntFunc(info *types.Info, list []ast.Stmt, env map[string]int64) (int64
 	return 0, false
 }
 
+// evalOptsFunc evaluates a function that builds a struct value into field -> expression text: a returned composite
+// literal, or a local initialised by a composite literal or by a call of another package function of the same
+// shape (parameters substituted by the argument texts), followed by assignments to its fields, and returned.
+func evalOptsFunc(info *types.Info, fns map[string]*ast.FuncDecl, fd *ast.FuncDecl, sub map[string]string, depth int) (map[string]string, string) {
+	if depth > 2 {
+		return nil, "helper chain too deep"
+	}
+	render := func(e ast.Expr) string {
+		out := types.ExprString(e)
+		for from, to := range sub {
+			out = regexp.MustCompile(`(^|[^A-Za-z0-9_.])`+regexp.QuoteMeta(from)+`($|[^A-Za-z0-9_])`).ReplaceAllString(out, "${1}"+to+"${2}")
+		}
+		return out
+	}
+	fromLit := func(cl *ast.CompositeLit) map[string]string {
+		vals := map[string]string{}
+		for _, e := range cl.Elts {
+			kv, ok := e.(*ast.KeyValueExpr)
+			if !ok {
+				return nil
+			}
+			vals[types.ExprString(kv.Key)] = render(kv.Value)
+		}
+		return vals
+	}
+	var fromExpr func(e ast.Expr) (map[string]string, string)
+	fromExpr = func(e ast.Expr) (map[string]string, string) {
+		switch t := ast.Unparen(e).(type) {
+		case *ast.CompositeLit:
+			if v := fromLit(t); v != nil {
+				return v, ""
+			}
+			return nil, "unkeyed composite literal"
+		case *ast.CallExpr:
+			f, ok := core.CalleeObj(info, t).(*types.Func)
+			if !ok {
+				return nil, "call of " + types.ExprString(t.Fun)
+			}
+			cf := fns[f.Name()]
+			if cf == nil || cf.Body == nil || cf.Recv != nil {
+				return nil, "call of " + f.Name() + " (not a function of this package)"
+			}
+			var names []string
+			for _, fl := range cf.Type.Params.List {
+				for _, n := range fl.Names {
+					names = append(names, n.Name)
+				}
+			}
+			if len(names) != len(t.Args) {
+				return nil, "helper arity"
+			}
+			s2 := map[string]string{}
+			for i, n := range names {
+				s2[n] = render(t.Args[i])
+			}
+			return evalOptsFunc(info, fns, cf, s2, depth+1)
+		}
+		return nil, "expression " + types.ExprString(e)
+	}
+	var cur map[string]string
+	var curObj types.Object
+	for _, st := range fd.Body.List {
+		switch t := st.(type) {
+		case *ast.ReturnStmt:
+			if len(t.Results) != 1 {
+				return nil, "return arity"
+			}
+			if id, ok := ast.Unparen(t.Results[0]).(*ast.Ident); ok && cur != nil && info.ObjectOf(id) == curObj {
+				return cur, ""
+			}
+			return fromExpr(t.Results[0])
+		case *ast.AssignStmt:
+			if len(t.Lhs) != 1 || len(t.Rhs) != 1 {
+				return nil, "multi-assignment"
+			}
+			if id, ok := t.Lhs[0].(*ast.Ident); ok && t.Tok == token.DEFINE && cur == nil {
+				v, why := fromExpr(t.Rhs[0])
+				if v == nil {
+					return nil, why
+				}
+				cur, curObj = v, info.ObjectOf(id)
+				continue
+			}
+			if sel, ok := t.Lhs[0].(*ast.SelectorExpr); ok && t.Tok == token.ASSIGN && cur != nil {
+				if id, ok := sel.X.(*ast.Ident); ok && info.ObjectOf(id) == curObj {
+					cur[sel.Sel.Name] = render(t.Rhs[0])
+					continue
+				}
+			}
+			return nil, "statement " + types.ExprString(t.Lhs[0]) + " " + t.Tok.String() + " ..."
+		case *ast.DeclStmt:
+			return nil, "declaration statement"
+		default:
+			return nil, fmt.Sprintf("statement %T", st)
+		}
+	}
+	return nil, "no return"
+}
+
 // RunOpts decides the option-mapping table of runtime.*InputToOptions.
 func RunOpts(c *core.Ctx) {
 	const src = "S0"
@@ -171,36 +271,20 @@ func RunOpts(c *core.Ctx) {
 	}
 	for fn, ws := range tables {
 		fd := fns[fn]
-		if fd == nil || fd.Body == nil || len(fd.Body.List) != 1 {
-			c.Undec("OPTS.map", "runtime."+fn, "function is not a single return of a composite literal", "", src)
+		if fd == nil || fd.Body == nil {
+			c.Undec("OPTS.map", "runtime."+fn, "function not found", "", src)
 			continue
 		}
 		pos := c.PosStr(p.Fset, fd.Pos())
-		rs, ok := fd.Body.List[0].(*ast.ReturnStmt)
-		var cl *ast.CompositeLit
-		if ok && len(rs.Results) == 1 {
-			cl, _ = rs.Results[0].(*ast.CompositeLit)
-		}
-		if cl == nil {
-			c.Undec("OPTS.map", "runtime."+fn, "function is not a single return of a composite literal", pos, src)
-			continue
-		}
-		// the parameter must be called input for the textual forms above; normalise by renaming
-		pname := "input"
+		// the parameter is called input in the textual forms above; normalise by renaming
+		sub := map[string]string{}
 		if len(fd.Type.Params.List) == 1 && len(fd.Type.Params.List[0].Names) == 1 {
-			pname = fd.Type.Params.List[0].Names[0].Name
+			sub[fd.Type.Params.List[0].Names[0].Name] = "input"
 		}
-		vals := map[string]string{}
-		for _, e := range cl.Elts {
-			kv, ok := e.(*ast.KeyValueExpr)
-			if !ok {
-				continue
-			}
-			v := types.ExprString(kv.Value)
-			if pname != "input" {
-				v = strings.ReplaceAll(v, pname+".", "input.")
-			}
-			vals[types.ExprString(kv.Key)] = v
+		vals, why := evalOptsFunc(p.TypesInfo, fns, fd, sub, 0)
+		if vals == nil {
+			c.Undec("OPTS.map", "runtime."+fn, "the options value is not built by a composite literal, field assignments and (one level of) helper calls: "+why, pos, src)
+			continue
 		}
 		for _, w := range ws {
 			con := fmt.Sprintf("runtime.%s field %s", fn, w.field)
